@@ -68,7 +68,7 @@ def encoder(t, e):
   raise tiera.Unsupported(f"driver cannot encode type {t}")
 
 
-GETTER = {"V2": "getV2", "V3": "getV3", "V4": "getV4", "Q": "getQ", "V5": "getV5", "V6": "getV6", "V10": "getV10", "M33": "getM33", "M22": "getM22",
+GETTER = {"V8": "getV8", "V11": "getV11", "V2": "getV2", "V3": "getV3", "V4": "getV4", "Q": "getQ", "V5": "getV5", "V6": "getV6", "V10": "getV10", "M33": "getM33", "M22": "getM22",
           "I2": "getI2", "I3": "getI3", "I4": "getI4", "I6": "getI6"}
 
 
